@@ -355,6 +355,7 @@ fn generate(seed: u64, tier: Tier, em: &mut Emitter) {
             steps.push(Step::TryMap(gen_efun(&mut rng, sim.rows.first(), 0), p));
             emit_try(em, &src, &steps, &["random"]);
         }
+        let mode = maybe_auto(&mut rng, &steps, mode, 8);
         emit(em, &src, &steps, mode, &["random"]);
         if rng.chance(1, 6) && !steps.iter().any(|s| matches!(s, Step::TryMap(..)))
             && !steps.iter().any(|s| matches!(s, Step::MapBatches(_, BFun::Header))) {
